@@ -498,7 +498,7 @@ class OpenRPC(Specification):
                 method.name,
                 method.method,
                 ref_template=f'{request_ref_prefix}{{model}}',
-                exclude=[method.context] if method.context else [],
+                exclude=list(method.injected_params),
             )
             params_descriptors = [
                 ContentDescriptor(
